@@ -76,6 +76,9 @@ def images_desc(draw, max_images=8):
         cells = draw(st.lists(st.tuples(st.sampled_from(VARIANTS), st.one_of(gen.arch_pool, st.sampled_from(gen.BINARY_ARCHES))),
                               min_size=ncells, max_size=ncells, unique=True))
         cells = [list(c) for c in cells]
+        if i == len(recs) - 1 and len(recs) >= 2 and identity(rec) == identity(recs[0]) and draw(st.booleans()):
+            # the twin (same identity, same checksums, another file) sits right next to the original: in the same cell
+            cells = [list(out[0]["cells"][0])] + [c for c in cells if c != out[0]["cells"][0]][:ncells - 1]
         # distinct paths inside one cell
         path = rec["path"]
         while any(path in cells_used.get(tuple(c), ()) for c in cells):
